@@ -343,6 +343,14 @@ class VSemLock:
         _point('sem.release', s)
         if self.kind != RECURSIVE_MUTEX and s.value >= self.maxvalue:
             raise ValueError('semaphore or lock released too many times')
+        if self.kind != RECURSIVE_MUTEX and self.maxvalue < SEM_VALUE_MAX \
+                and getattr(_world, 'split_release', False):
+            # what semlock_release() in Modules/_billiard/semaphore.c (and
+            # CPython's _multiprocessing) really does for a bounded
+            # semaphore: sem_getvalue(), compare, sem_post() -- two system
+            # calls; another *process* can run in between (threads of one
+            # process cannot: the GIL is held across both)
+            _point('sem.post', s)
         s.value += 1
         self.count -= 1
 
